@@ -1769,7 +1769,11 @@ class FuncFind(ValueFunc):
                 env = environment.newEnv()
             item = args.get("part")
             lst = obj.value
-            for idx in range(len(lst)):
+            # same convention as the string branch (str.find): a negative
+            # start counts from the end and is clamped to the first element
+            if start < 0:
+                start = max(0, start + len(lst))
+            for idx in range(start, len(lst)):
                 elem = lst[idx]
                 if key:
                     elem = call_function(key, [elem], env, pos)
